@@ -740,7 +740,8 @@ type reconciler interface {
 }
 
 const (
-	matcherNullRace = "c25.noncurrentDeleteUnguarded" // KF-C25-1
+	matcherNullRace  = "c25.noncurrentDeleteUnguarded"     // KF-C25-1
+	matcherRetention = "c25.retentionSortedByLastModified" // KF-C25-2
 )
 
 func run(env *ev.Env, c Case) (o ev.Outcome) {
@@ -801,6 +802,11 @@ func run(env *ev.Env, c Case) (o ev.Outcome) {
 		if env.Known(matcherNullRace) && f.stats["adversary_writes"] > 0 && strings.Contains(f.violation, "versionId=null") && strings.Contains(f.violation, "CURRENT version") && strings.HasPrefix(f.violation, "unjustified lifecycle action: DeleteObject") {
 			o.KnownHits = append(o.KnownHits, "KF-C25-1")
 			o.Excluded = true
+		} else if env.Known(matcherRetention) && c.LMModel == "pithos" && strings.Contains(f.violation, "most recent noncurrent versions") && lmReordered(&c, f.violation) {
+			// the retention count was taken over a history re-sorted by LastModified values
+			// that pithos' store rewrites on transitions
+			o.KnownHits = append(o.KnownHits, "KF-C25-2")
+			o.Excluded = true
 		} else {
 			o.Failf("%s [now=%s, %d actions]", f.violation, tm(c.Now).Format(time.RFC3339Nano), len(f.actions))
 			return
@@ -808,6 +814,23 @@ func run(env *ev.Env, c Case) (o ev.Outcome) {
 	}
 	o.NonTrivial = f.boundary || protected || boundaryCandidate(&c)
 	return
+}
+
+// lmReordered: the key named in the violation has reported LastModified values
+// that are not non-increasing along its version history (so sorting by
+// LastModified changes the order).
+func lmReordered(c *Case, violation string) bool {
+	for _, k := range c.Keys {
+		if !strings.Contains(violation, fmt.Sprintf("(%q, ", k.Key)) {
+			continue
+		}
+		for i := 1; i < len(k.Versions); i++ {
+			if k.Versions[i].Created+k.Versions[i].Bump > k.Versions[i-1].Created+k.Versions[i-1].Bump {
+				return true
+			}
+		}
+	}
+	return false
 }
 
 type realVer struct {
@@ -906,6 +929,12 @@ func runReal(env *ev.Env, c Case) (o ev.Outcome) {
 	for rank, i := 0, len(hist)-2; i >= 0 && rank < int(c.Real.N); rank, i = rank+1, i-1 {
 		v := hist[i]
 		if !v.marker && !alive[v.id] {
+			if transitions > 0 && env.Known(matcherRetention) {
+				o.KnownHits = append(o.KnownHits, "KF-C25-2")
+				o.Excluded = true
+				o.NonTrivial = true
+				return
+			}
 			o.Failf("real storage: NoncurrentVersionExpiration with NewerNoncurrentVersions=%d deleted version #%d (in write order), which is the %d. most recent noncurrent version of the key (%d versions written, %d transitions)",
 				c.Real.N, i+1, rank+1, len(hist), transitions)
 			return
@@ -1184,6 +1213,21 @@ func genCase(t *rapid.T, env *ev.Env) Case {
 	var c Case
 	if rapid.IntRange(0, 9999).Draw(t, "real")%40 == 3 {
 		rc := &RealCase{N: rapid.SampledFrom([]int32{1, 2, 3}).Draw(t, "realN")}
+		if rapid.Bool().Draw(t, "realShaped") {
+			// puts, then transitions of old versions, then more writes: the shape in which
+			// pithos' LastModified rewriting reorders the history
+			np := rapid.IntRange(2, 6).Draw(t, "puts1")
+			for i := 0; i < np; i++ {
+				rc.Ops = append(rc.Ops, ROp{Kind: "put"})
+			}
+			for _, idx := range rapid.SliceOfNDistinct(rapid.IntRange(0, np-1), 1, np, rapid.ID[int]).Draw(t, "transIdx") {
+				rc.Ops = append(rc.Ops, ROp{Kind: "transition", Idx: idx})
+			}
+			for i, n := 0, rapid.IntRange(0, 3).Draw(t, "tail"); i < n; i++ {
+				rc.Ops = append(rc.Ops, ROp{Kind: rapid.SampledFrom([]string{"put", "put", "delete"}).Draw(t, "tailK")})
+			}
+			return Case{Versioning: "enabled", Real: rc}
+		}
 		for i, n := 0, rapid.IntRange(3, 12).Draw(t, "realOps"); i < n; i++ {
 			kind := rapid.SampledFrom([]string{"put", "put", "put", "transition", "transition", "delete"}).Draw(t, "ropK")
 			if i < 2 {
@@ -1272,7 +1316,9 @@ func genCase(t *rapid.T, env *ev.Env) Case {
 	c.NowZone = rapid.SampledFrom([]int{0, 0, 3600, -5 * 3600, 14 * 3600}).Draw(t, "zone")
 	// clock: around a due boundary of some candidate, or anywhere
 	dues := allDues(&c)
-	if len(dues) > 0 && rapid.IntRange(0, 9).Draw(t, "nowK") < 8 {
+	if nk := rapid.IntRange(0, 9).Draw(t, "nowK"); nk == 9 {
+		c.Now = epoch + 600*day + rapid.Int64Range(0, day).Draw(t, "farOff") // everything day-based is due
+	} else if len(dues) > 0 && nk < 7 {
 		c.Now = rapid.SampledFrom(dues).Draw(t, "due") + rapid.SampledFrom([]int64{-1, -1, 0, 1, -day, day, -day - 1}).Draw(t, "off")
 	} else {
 		c.Now = genTime(t, "now") + rapid.Int64Range(0, 400).Draw(t, "nowShift")*day
